@@ -12,7 +12,7 @@ import os
 import re
 from dataclasses import dataclass, field
 
-REPO = "/repo"
+REPO = os.environ.get("VERIF_REPO", "/repo")
 UNIT = os.path.join(REPO, "test-data", "unit")
 MYPYC_DATA = os.path.join(REPO, "mypyc", "test-data")
 
